@@ -28,14 +28,16 @@ FAMILIES = {
     "debian": {"files": ["Debian.v", "DebianProofs.v"], "theorems": _thms("debian", ["debian_parse_valid"])},
     "redhat": {"files": ["Redhat.v", "RedhatProofs.v"],
                "theorems": _thms("redhat", ["redhat_trans_all_strings", "redhat_eq_equiv_all_strings"])},
-    "pypi": {"files": ["Pypi.v", "PypiProofs.v"],
-             "theorems": ["pypi_total", "pypi_antisym", "pypi_refl", "pypi_refl_refuted", "pypi_trans_on_valid", "pypi_eq_equiv"]},
+    "pypi": {"files": ["Pypi.v", "PypiProofs.v", "PypiParse.v", "PypiParseProofs.v"],
+             "theorems": ["pypi_struct_total", "pypi_parse_valid", "pypi_total", "pypi_antisym", "pypi_refl", "pypi_struct_antisym", "pypi_struct_refl",
+                          "pypi_struct_refl_refuted", "pypi_trans_on_valid", "pypi_eq_equiv", "pypi_trans_all_strings", "pypi_eq_equiv_all_strings"]},
     "packagist": {"files": ["Packagist.v", "PackagistProofs.v"],
                   "theorems": ["packagist_total", "packagist_antisym", "packagist_refl", "packagist_hash_eq_not_transitive_refuted",
                                "packagist_trans_on_D", "packagist_eq_equiv_on_D"]},
-    "maven": {"files": ["Maven.v", "MavenProofs.v"],
+    "maven": {"files": ["DecProofs.v", "Maven.v", "MavenProofs.v", "MavenParseProofs.v"],
               "theorems": ["maven_total", "maven_struct_total", "maven_refl", "maven_struct_refl", "maven_eq_symmetric",
-                           "maven_struct_antisym", "maven_trans_refuted", "maven_trans_on_D", "maven_eq_equiv_on_D"]},
+                           "maven_struct_antisym", "maven_trans_refuted", "maven_trans_on_D", "maven_eq_equiv_on_D",
+                           "maven_parse_wf", "maven_antisym", "maven_trans_on_D_strings", "maven_eq_equiv_on_D_strings"]},
     "alpine": {"files": ["Alpine.v", "AlpineProofs.v"],
                "theorems": ["alpine_total", "alpine_antisym", "alpine_refl", "alpine_eq_not_transitive_refuted",
                             "alpine_trans_on_D", "alpine_eq_equiv_on_D"]},
@@ -44,7 +46,7 @@ ALL_FAMILIES = ["semver", "nuget", "cran", "rubygems", "debian", "redhat", "pypi
 ALL_ECOS = {"semver": ["npm", "crates.io", "Go", "Hex", "Pub", "ConanCenter"], "nuget": ["NuGet"], "cran": ["CRAN"],
             "rubygems": ["RubyGems"], "debian": ["Debian", "Ubuntu"], "redhat": ["Red Hat"], "pypi": ["PyPI"],
             "packagist": ["Packagist"], "alpine": ["Alpine"], "maven": ["Maven"]}
-LIB_FILES = ["Cmp.v", "LexPad.v", "Bytes.v", "Str.v", "Cases.v", "Registry.v"]
+LIB_FILES = ["Cmp.v", "LexPad.v", "Bytes.v", "Str.v", "Generated_Tables.v", "Cases.v", "Registry.v"]
 
 
 def implemented():
@@ -78,15 +80,17 @@ META = {
                   "by the hook, compare model = observed result on all pairs of a 40-string pool per ecosystem (x shards) and further "
                   "random pairs; the laws are also checked directly on the observed results (every pair both ways, every triple of "
                   "each pool inside the domain of the proved theorem). Not modelled (structures taken from the hook): the regex "
-                  "front ends of Alpine, PyPI and Packagist. NOT yet modelled ecosystems: %s."
+                  "front ends of Alpine and Packagist (PyPI's PEP 440 regex + legacy fallback IS modelled, as a backtracking matcher). NOT yet modelled ecosystems: %s."
                   % (", ".join(e for k in implemented() for e in ALL_ECOS[k]), ", ".join(not_modelled()) or "none"),
     "level_note": "Trusted: Coq kernel + vm_compute; Go harness harness/cmd/semantic (string generation, observation of "
                   "value/error/recovered panic, printing of Coq terms); hook semantic/verif_export.go (JSON dump of parsed "
-                  "structures). Not modelled: Unicode case mapping inside strings.ToLower (NuGet, Maven: inputs where it matters are kept out "
-                  "of the correspondence and counted), regex front ends of Alpine/PyPI/Packagist (structures come from the hook), math/big. "
+                  "structures). strings.ToLower is modelled for ASCII and, through the generated toolchain table, for U+0080..U+052F (Latin-1, Latin Extended, "
+                  "IPA, Greek, Cyrillic; every code point of that range is swept on each run for NuGet, Maven, PyPI); cased letters at or above "
+                  "U+0530 are not modelled (such inputs are kept out of the correspondence and counted per ecosystem in input_distribution), regex front ends of Alpine/Packagist (structures come from the hook), math/big. "
                   "Debian and Red Hat comparators are modelled as tokenise-then-compare, an equivalent form of the interleaved Go loops "
-                  "(equivalence checked by the correspondence). Maven string-level antisymmetry relies on the parser producing well-formed "
-                  "token lists (proved for structures; every parsed structure of a run is checked against maven_wf by the domain filter).",
+                  "(equivalence checked by the correspondence). Maven: maven_parse_wf proves that the modelled tokeniser only builds well-formed token lists, so antisymmetry "
+                  "and the laws on D hold for all byte strings. Keyword / weight tables of Maven, Alpine, Packagist, Debian and PyPI are "
+                  "regenerated from the Go source (harness/cmd/semtables -> Semantic/Generated_Tables.v) on every run and USED by the models.",
     "design_ref": "DESIGN.md section 5 C07",
 }
 
@@ -240,8 +244,35 @@ def run_regressions(ctx, binp, d):
     return res
 
 
+def translate(ctx):
+    """Regenerate Semantic/Generated_Tables.v from the Go AST of the tree under test (keyword / weight tables the models use)."""
+    binp, out = ctx.harness_build("semtables")
+    if binp is None:
+        return {"ok": False, "log": out[-2000:]}
+    target = os.path.join(vlib.COQ, "theories", "Semantic", "Generated_Tables.v")
+    js = os.path.join(vlib.BUILD, "semtables.json")
+    rc, out = vlib.sh([binp, "-repo", vlib.REPO, "-out", target, "-json", js], timeout=120)
+    res = {"ok": rc == 0, "log": out[-800:], "rewritten_this_run": "generated-file: changed" in out}
+    if rc == 0:
+        res["tables"] = json.load(open(js))
+        res["sha256"] = vlib.sha(open(target).read())
+        rc2, diff = vlib.sh(["git", "diff", "--stat", "--", "coq/theories/Semantic/Generated_Tables.v"], cwd=vlib.VERIF)
+        res["differs_from_committed_copy"] = bool(diff.strip())
+        if diff.strip():
+            rc3, full = vlib.sh(["git", "diff", "--", "coq/theories/Semantic/Generated_Tables.v"], cwd=vlib.VERIF)
+            res["diff_against_committed_copy"] = full[-3000:]
+    return res
+
+
 # ------------------------------------------------------------------ main
 def run(ctx):
+    tr = translate(ctx)
+    ctx.coverage["translated_tables"] = {k: v for k, v in tr.items() if k != "log"}
+    ctx.log("translate: ok=%s rewritten=%s differs_from_committed=%s" % (tr["ok"], tr.get("rewritten_this_run"), tr.get("differs_from_committed_copy")))
+    if not tr["ok"]:
+        ctx.violation({"kind": "translator-failed", "log": tr["log"],
+                       "explanation": "harness/cmd/semtables could not find the table patterns in semantic/*.go: the models' tables are "
+                                      "no longer derived from the code"}, nofail=True)
     files = coq_files()
     bad = ctx.gate(files)
     if bad:
@@ -267,9 +298,10 @@ def run(ctx):
         ctx.violation({"kind": "axioms", "axioms": pa["axioms"]}, nofail=True)
     all_thms = [t for k in implemented() for t in FAMILIES[k]["theorems"]]
     tb_extra = [
+        "translator harness/cmd/semtables (go/ast patterns over semantic/*.go -> Generated_Tables.v; human-readable data)",
         "Go harness harness/cmd/semantic (generation, observation of value / error / recovered panic, Coq term printing)",
         "hook /repo/semantic/verif_export.go (VerifParse/VerifDump: JSON dump of the parsed structures)",
-        "modelled, not verified: Unicode case mapping of strings.ToLower; math/big; regexp (Alpine/PyPI/Packagist front ends: structures taken from the hook)",
+        "modelled, not verified: Unicode case mapping of strings.ToLower at or above U+0530 (below: generated toolchain table, swept on every run); math/big; regexp (Alpine/Packagist front ends: structures taken from the hook; PyPI's is modelled)",
     ]
     ctx.coverage["trusted_base"] = vlib.std_trusted_base(pa, tb_extra)
     ctx.coverage["ecosystems_modelled"] = [e for k in implemented() for e in ALL_ECOS[k]]
@@ -407,7 +439,7 @@ def run(ctx):
                        "transitivity and equality-equivalence on every triple of each pool restricted to the domain of the proved theorem",
     })
     ctx.assumptions += ["math/big arithmetic = Z; strings.Compare = bytewise lexicographic order",
-                        "strings.ToLower on non-ASCII letters is not modelled (such inputs are excluded from the correspondence, counted in input_distribution.*.unmodelled_alphabet)"]
+                        "strings.ToLower on cased letters at or above U+0530 is not modelled (such inputs are excluded from the correspondence, counted in input_distribution.*.unmodelled_alphabet)"]
 
     # ---------------- verdict
     for f in spec_fail[:5]:
